@@ -226,7 +226,7 @@ def _extension_produced(ctx: Context, N: Names, key: str) -> tuple[bool, str]:
     return ok, f"extensions['{key}'] is produced by every protocol Response construction: {producers}"
 
 
-def _eof(ctx: Context, tree: str, N: Names) -> None:
+def _eof(ctx: Context, tree: str, N: Names, rule: str = "C15.R4") -> None:
     """R4: every network read either feeds a parser with EOF semantics unconditionally, or raises on b'' first."""
     rep = ctx.rep
     n = 0
@@ -246,7 +246,7 @@ def _eof(ctx: Context, tree: str, N: Names) -> None:
         if isinstance(st, ast.Assign) and isinstance(st.targets[0], ast.Name):
             var = st.targets[0].id
         if var is None:
-            rep.ob("C15.R4", fkey(tree, f, f"read:{norm(s.node)[:50]}"), False, where(f, s.node), "the result of the network read is not bound to a variable (bytes dropped)")
+            rep.ob(rule, fkey(tree, f, f"read:{norm(s.node)[:50]}"), False, where(f, s.node), "the result of the network read is not bound to a variable (bytes dropped)")
             continue
 
         def feeds(nd) -> str | None:
@@ -289,8 +289,8 @@ def _eof(ctx: Context, tree: str, N: Names) -> None:
                                 guarded = True
                 ok = ok and guarded
                 detail += f"; {target} has no EOF semantics: " + ("b'' raises before the parser" if guarded else f"no `{var} == b''` test raises before the parser - a closed connection would never be noticed (hang)")
-        rep.ob("C15.R4", fkey(tree, f, f"read:{var}"), ok, where(f, s.node), detail)
-    rep.floor("C15.R4", f"network read sites outside stream wrappers ({tree})", n, 3)
+        rep.ob(rule, fkey(tree, f, f"read:{var}"), ok, where(f, s.node), detail)
+    rep.floor(rule, f"network read sites outside stream wrappers ({tree})", n, 3)
 
 
 FAMILY = {"read": ("ReadTimeout", "ReadError"), "write": ("WriteTimeout", "WriteError"), "start_tls": ("ConnectTimeout", "ConnectError"),
